@@ -212,6 +212,10 @@ def assigned_names(stmts):
         def visit_FunctionDef(self, n):
             mark(n.name, "rebind")
 
+        def visit_Yield(self, n):
+            mark("__yielded__", "rebind")
+            self.generic_visit(n)
+
         def visit_Delete(self, n):
             for t in n.targets:
                 if isinstance(t, ast.Subscript):
@@ -295,7 +299,7 @@ class Exec:
             st.assume(self.eval_contract(rq, st, {}))
         self.pre_state = st.fork()
         if self.is_generator:
-            st.ghost["__yielded__"] = Seq.of([], "list")
+            st.locals["__yielded__"] = Seq.of([], "list")
         states = self.exec_block(self.fnode.body, [st])
         for s in states:
             if s.status == "run":
@@ -325,8 +329,18 @@ class Exec:
             self.oblige(s, znot(w) if not isinstance(w, bool) else (not w), "must-raise[%s]" % r["exc"], s.ghost.get("__return_node__", node))
         result = s.value
         if self.is_generator:
-            result = s.ghost["__yielded__"]
+            result = s.locals["__yielded__"]
+        if isinstance(result, Seq) and result.concrete_len() and result.n == 0 and c.returns:
+            t = parse_type(c.returns)
+            if isinstance(t, tuple) and t[0].startswith("seq:"):
+                result = fresh_seq(t[1], "empty_result", (), None, result.kind, n=0)
         extra = {"result": result}
+        for gname, gty in getattr(c, "ghost_results", {}).items():
+            if gname not in s.locals:
+                # the ghost result is existential: on paths that never set it, the empty /
+                # arbitrary value is the witness
+                t = parse_type(gty)
+                extra[gname] = fresh_seq(t[1], gname, (), None, "array", n=0) if isinstance(t, tuple) and t[0].startswith("seq:") else fresh(t, gname)
         for k, ens in enumerate(c.ensures):
             goals = self.eval_contract_goals(ens, s, extra)
             for j, g in enumerate(goals):
@@ -403,7 +417,7 @@ class Exec:
             for g in ghosts:
                 if g.get("before") and text.startswith(g["before"]):
                     g["hit"] = g.get("hit", 0) + 1
-                    self.eval(g["do"].body, st)
+                    self.run_ghost(g, st)
         res = m(node, st)
         out = []
         for s in res:
@@ -421,8 +435,15 @@ class Exec:
                     g["hit"] = g.get("hit", 0) + 1
                     for s in out:
                         if s.status == "run":
-                            self.eval(g["do"].body, s)
+                            self.run_ghost(g, s)
         return out
+
+    def run_ghost(self, g, st):
+        v = self.eval(g["do"].body, st)
+        if g.get("let"):
+            if not g["let"].startswith("g_"):
+                raise EngineError("ghost variables must be named g_*")
+            st.locals[g["let"]] = v
 
     def stmt_Expr(self, node, st):
         v = node.value
@@ -433,8 +454,8 @@ class Exec:
             return [st]
         if isinstance(v, (ast.Yield,)):
             val = self.eval(v.value, st)
-            y = st.ghost["__yielded__"]
-            st.ghost["__yielded__"] = self.seq_append(y, val)
+            y = st.locals["__yielded__"]
+            st.locals["__yielded__"] = self.seq_append(y, val)
             return [st]
         self.eval(v, st)
         return [st]
@@ -536,9 +557,22 @@ class Exec:
         st.locals[node.name] = Closure(node, defaults)
         return [st]
 
+    def ordinal_of(self, node):
+        if not hasattr(self, "_loop_ids"):
+            ids = {}
+
+            def visit(n):
+                for ch in ast.iter_child_nodes(n):
+                    if isinstance(ch, (ast.For, ast.While)):
+                        ids[id(ch)] = len(ids)
+                    if not isinstance(ch, (ast.FunctionDef, ast.Lambda)) or ch is self.fnode:
+                        visit(ch)
+            visit(self.fnode)
+            self._loop_ids = ids
+        return self._loop_ids[id(node)]
+
     def stmt_For(self, node, st):
-        ordinal = self.loop_ordinal
-        self.loop_ordinal += 1
+        ordinal = self.ordinal_of(node)
         it = self.eval(node.iter, st)
         seq = self.as_seq(it, st, node.iter)
         spec = self.contract.loops.get(ordinal)
@@ -576,8 +610,7 @@ class Exec:
                     self.loop_ordinal += 1
 
     def stmt_While(self, node, st):
-        ordinal = self.loop_ordinal
-        self.loop_ordinal += 1
+        ordinal = self.ordinal_of(node)
         spec = self.contract.loops.get(ordinal)
         if spec is None:
             raise EngineError("%s:L%d: loop #%d has no invariant in the sidecar contract" % (self.fnname, node.lineno, ordinal))
